@@ -22,7 +22,7 @@ func TestVerifC05HS(t *testing.T) {
 		c05SuitesPart(),
 		c05KUDerivePart(),
 		c05RetryPart(),
-		c05KeyUpdatePart("keyupdate-v1", c05KUConfig{version: protocol.Version1, suite: ref5.TLS_AES_128_GCM_SHA256, first: 1, interval: 1, monitor: true, tier: 0}),
+		c05KeyUpdatePart("keyupdate-v1", c05KUConfig{version: protocol.Version1, suite: ref5.TLS_AES_128_GCM_SHA256, first: 1, interval: 1, monitor: true, tier: 0, extraDepth: 1}),
 		c05KeyUpdatePart("keyupdate-v1-i2", c05KUConfig{version: protocol.Version1, suite: ref5.TLS_AES_256_GCM_SHA384, first: 2, interval: 2, monitor: true, tier: 0}),
 		c05KeyUpdatePart("keyupdate-v1-chacha", c05KUConfig{version: protocol.Version1, suite: ref5.TLS_CHACHA20_POLY1305_SHA256, first: 1, interval: 2, monitor: true, tier: 1}),
 		c05KeyUpdatePart("keyupdate-v2", c05KUConfig{version: protocol.Version2, suite: ref5.TLS_AES_128_GCM_SHA256, first: 1, interval: 1, monitor: false, tier: 1}),
